@@ -133,9 +133,10 @@ def fam_refused(out, tier, rnd):
                     for second in seconds:
                         endings = ("lost",) if second is None or second[0] == "bad" else ("lost", "accepted", "refused")
                         for ending in endings:
+                            ka1, ka2 = rnd.choice([(0, 0), (3, 0), (0, 3), (3, 5)])      # the two attempts need not ask for the same keepalive
                             w = out.world(prof)
                             w.build(A); w.set(A, "onDisconnection", 1); w.set(A, "window", 2)
-                            w.connect(A, keepalive=0, cleanStart=clean1, version=4)
+                            w.connect(A, keepalive=ka1, cleanStart=clean1, version=4)
                             for q in early:
                                 w.publish(A, "t", "early%d" % q, q)
                             if code == "timeout":
@@ -145,7 +146,7 @@ def fam_refused(out, tier, rnd):
                             else:
                                 w.recv(A, W.connack(code, 0))
                             if second is not None and w.t[A].phase == "open":
-                                kw = dict(keepalive=0, version=4)
+                                kw = dict(keepalive=ka2, version=4)
                                 if second[0] == "bad":
                                     kw.update(second[2])
                                 w.connect(A, cleanStart=second[1], **kw)
@@ -156,8 +157,9 @@ def fam_refused(out, tier, rnd):
                             elif ending == "accepted":
                                 w.recv(A, W.connack(0, 0 if (second and second[1]) else 1))
                                 w.publish(A, "t", "after", 1)
-                                if w.due() and w.in_range(w.due()[0]):
-                                    w.fire(w.due()[0])
+                                for _ in range(3):
+                                    if w.due() and w.in_range(w.due()[0]) and w.t[A].phase == "open":
+                                        w.fire(w.due()[0])
                             elif ending == "refused":
                                 w.recv(A, W.connack(4, 0))
                             if w.t[A].phase != "lost":
@@ -645,6 +647,19 @@ def fam_ids(out, tier, rnd):
                         w.lost(A, "done")
                     drain(w, 2)
                     out.done(w)
+            # a long run: one publish in flight and 70 held back behind a window of 1 hold 71 consecutive identifiers
+            if prof == "both" or first == 65535:
+                w = out.world(prof)
+                w.build(A); w.set(A, "onDisconnection", 1); w.set(A, "window", 1)
+                w.connect(A, keepalive=0, cleanStart=True); w.recv(A, W.connack(0, 0))
+                place(w, first)
+                for j in range(71):
+                    w.publish(A, "t", "r%d" % j, 1 + j % 2)
+                place(w, first)
+                make(w, "sub" if prof == "both" else "pub1")
+                make(w, "pub2")
+                w.lost(A, "done"); drain(w, 2)
+                out.done(w)
             # held back in the queue: window 2, four publishes, then requests that are not subject to the publish window
             for qs in ((1, 1, 1, 1), (2, 1, 2, 1), (1, 2, 0, 1)):
                 w = out.world(prof)
@@ -1038,6 +1053,33 @@ def fam_lossall(out, tier, rnd):
                         w.lost(A, "done"); drain(w, 3)
                         out.done(w)
 
+
+# ------------------------------------------------------------------------------------------------ valid connect() arguments
+def fam_validconnect(out, tier, rnd):
+    """connect() with each kind of VALID argument combination (credentials, empty strings, will variants, boundary
+    keepalives and client ids, both versions) on an idle protocol of each profile, answered by an accepting or a refusing
+    CONNACK, then the loss: C04's handshake outcome does not depend on which valid arguments are used            (C04)"""
+    base = dict(clientId="cid", keepalive=0, cleanStart=True, version=4)
+    combos = [dict(), dict(username="u"), dict(username="u", password="pw"), dict(username="", password="secret"), dict(username="", password=""),
+              dict(username="u", password=""), dict(username=""), dict(clientId=""), dict(clientId="x" * 23, version=3), dict(clientId="\u00e9" * 23, version=3),
+              dict(clientId="x" * 200), dict(willTopic="w", willMessage="m", willQoS=2, willRetain=True), dict(willTopic="w", willMessage=""),
+              dict(willTopic="", willMessage="m"), dict(willQoS=2, willRetain=True), dict(keepalive=65535), dict(keepalive=1), dict(cleanStart=False),
+              dict(username="\u00e9" * 100, password="\u20ac" * 50), dict(willTopic="\ufeffw", willMessage="\ufeff")]
+    for prof in ("pub", "sub", "both"):
+        for kw in combos:
+            for code in (0, 5):
+                if tier == "quick" and code == 5 and prof != "both":
+                    continue
+                w = out.world(prof)
+                w.build(A); w.set(A, "onDisconnection", 1)
+                w.connect(A, **dict(base, **kw))
+                if w.t[A].phase == "open":
+                    w.recv(A, W.connack(code, 0))
+                if w.t[A].phase != "lost":
+                    w.lost(A, "done")
+                drain(w, 2)
+                out.done(w)
+
 # ------------------------------------------------------------------------------------------------ react (stage 3)
 def actions(w):
     """what an application may do from inside a callback"""
@@ -1179,7 +1221,7 @@ def main():
     outdir, fam, tier, seed = sys.argv[1], sys.argv[2], sys.argv[3], int(sys.argv[4])
     rnd = random.Random(seed)
     out = Out(outdir)
-    {"handshake": fam_handshake, "inject": fam_inject, "args": fam_args, "react": fam_react, "refused": fam_refused, "refstate": fam_refstate, "ids": fam_ids, "retrygrid": fam_retrygrid, "inbound2": fam_inbound2, "resume": fam_resume, "deadconnect": fam_deadconnect, "pktstate": fam_pktstate, "lossall": fam_lossall, "heldback": fam_heldback, "ka2": fam_ka2}[fam](out, tier, rnd)
+    {"handshake": fam_handshake, "inject": fam_inject, "args": fam_args, "react": fam_react, "refused": fam_refused, "refstate": fam_refstate, "ids": fam_ids, "retrygrid": fam_retrygrid, "inbound2": fam_inbound2, "resume": fam_resume, "deadconnect": fam_deadconnect, "pktstate": fam_pktstate, "validconnect": fam_validconnect, "lossall": fam_lossall, "heldback": fam_heldback, "ka2": fam_ka2}[fam](out, tier, rnd)
     out.close()
 
 
